@@ -99,7 +99,9 @@ def rand_theta(rng, m):
         elif kind == "allsmall":
             # every coordinate next to 0 (>= 1e-9: the alpha products of the local-ratio coding stay
             # below 1e9^32 = 1e288 up to dimension 33; see findings: C19-local-ratio-overflow)
-            th.append(10 ** rng.uniform(-9, -7))
+            # (down to 1e-12: in high dimensions the local-ratio coding then overflows: known finding,
+            #  reported by the driver as `local_ratio_overflow`)
+            th.append(10 ** rng.uniform(-12, -7))
         elif kind == "alllarge":
             th.append(1.0 - 10 ** rng.uniform(-12, -7))
         elif kind == "dyadic":
